@@ -317,6 +317,16 @@ func (g *gen) enterLoop(li *loopInfo, b *ssa.BasicBlock, st *state, phis []*ssa.
 	iterName := fmt.Sprintf("ITER.%d", li.ordinal)
 	g.heapSorts[iterName] = "Int"
 	st.heap[iterName] = "0"
+	// callsHere(NAME): the call counters as they are when this loop begins
+	for n := range g.counted {
+		c0 := fmt.Sprintf("ITER.c0.%d.%s", li.ordinal, n)
+		g.heapSorts[c0] = "Int"
+		if v, ok := st.heap["GHOST.calls."+n]; ok {
+			st.heap[c0] = v
+		} else {
+			st.heap[c0] = "0"
+		}
+	}
 	// 1. invariants hold on entry
 	if g.opts.functional || g.opts.safety || g.opts.frames {
 		entryEnv := g.pointEnv(b, st, func(p *ssa.Phi) string { return entryVals[p] })
